@@ -22,7 +22,8 @@ RULE = (
     "PYTHONHASHSEED in 0..7 (quick) / 0..63 (thorough), every hash seed in its own interpreter process; observed: the "
     "full text of header and source from cpp.compile_ekf and cpp.compile, and the Python layout (Model.arglist, names of "
     "State/Control/Calibration/Covariance/each Reading, calibration vector, process-noise matrix). Oracle: exactly one "
-    "text per definition and output kind, one layout per definition. One evaluation = one generation. distinct = "
+    "text per definition and output kind, one layout per definition; in every process each definition is generated again with "
+    "time.time / time.monotonic / time.perf_counter moved forward by 1 hour and by 1e9 s and must produce the same text. One evaluation = one generation. distinct = "
     "(definition, variant, hash seed); non-trivial = variant differs from the base declaration order or hash seed != 0."
 )
 ASSUMPTIONS = ["each hash seed runs in a fresh subprocess of /venv/bin/python with PYTHONHASHSEED set"]
@@ -135,6 +136,16 @@ def eval_case(case):
             fails.append({"key": f"generation-raises:def{di}", "what": f"hashseed {case['hashseed']} variant {vid}: {rec['error']}"})
             continue
         n += 1
+        for tag in ("clock+1h", "clock+30y"):
+            for kind in ("ekf_header", "ekf_source"):
+                if f"{kind}@{tag}" in rec:
+                    n += 1
+                    if rec[f"{kind}@{tag}"] != rec[kind]:
+                        diff = "\n".join(list(difflib.unified_diff(rec[kind].splitlines(), rec[f"{kind}@{tag}"].splitlines(), "start-up", tag,
+                                                                   lineterm="", n=1))[:30])
+                        fails.append({"key": f"clock-changes-output:{kind}", "what": f"hashseed {case['hashseed']} variant {vid}: {kind} "
+                                      f"generated with the process clocks moved by {tag[6:]} differs from the one generated at start-up",
+                                      "detail": diff})
         for k in KINDS:
             h = hashlib.sha256(rec[k].encode()).hexdigest()[:16]
             digest[f"{vid}|{k}"] = h
